@@ -533,6 +533,13 @@ func verifyFunc(prog *ssa.Program, spkg *ssa.Package, contracts *Contracts, fn *
 			}
 			g := fc.evalClause(env, cl, tr.topKey)
 			tr.oblige("post", "post/"+tr.topKey+"/"+name+suffix, g, r.pos, clauseProps(cl, tr.topProps), cl.Src)
+			// `excluding name @@ H`: outside the witness class H of a recorded finding the clause must still hold
+			for _, ex := range c.Clauses {
+				if ex.Kind == "excluding" && ex.Name == cl.Name && cl.Name != "" {
+					h := fc.evalClause(env, ex, tr.topKey)
+					tr.oblige("post", "post/"+tr.topKey+"/"+name+"~excl"+suffix, implies(h, g), r.pos, clauseProps(cl, tr.topProps), cl.Src+"   [under the exclusion: "+ex.Src+"]")
+				}
+			}
 		}
 		// frame
 		entryEnv := fc.envAt(fc.entrySt)
